@@ -207,7 +207,7 @@ CLAIMS.update({
              "Memory-model caveat as C02. A stale relaxed get_sample_count on non-multi-copy-atomic hardware cannot be exhibited by the model.",
         ref="DESIGN.md section 4 C03 and 13"),
     "C10": dict(
-        text="Theorems in coq/Props/C10.v (23, closed under the global context), for all interleavings and any number of threads: the vector "
+        text="Theorems in coq/Props/C10.v (33 statements, closed under the global context), for all interleavings and any number of threads: the vector "
              "model is linearizable to a sequential map from label values to (child id, value) with linearisation step = lookup hit / "
              "insert / remove / clear / read-lock acquisition of collect (key set) / per-child load / fetch_add through the handle, each "
              "inside its call window, real-time order respected (c10_lin, c10_real_time); lock word consistent and map accessed only under "
@@ -294,7 +294,7 @@ CLAIMS.update({
         note="Per-location sequentially consistent interleaving semantics (one cell); memory orderings are recorded, not part of the "
              "correspondence (no proof depends on them: Relaxed -> SeqCst is not a violation). One NaN. Not exhibited by the model: stale "
              "relaxed loads on non-multi-copy-atomic hardware. CounterVec children are the same Value/Atomic code reached through C10's "
-             "harness object, exercised through C10's harness object (see the last sentences of the claim). Axioms: FloatAxioms; Flocq's classical/real axioms only under c01_monotone_float.",
+             "harness object, exercised through C10's harness object (see the last sentences of the claim). Axioms: FloatAxioms; Flocq's classical/real axioms only under c01_monotone_float and c01_spec_of_validated_float.",
         ref="DESIGN.md section 4 C01 and 13"),
     "C11": dict(
         text="Theorems in coq/Props/C11.v (same model and invariants as C01 with set / inc / dec / add / sub / get): gauges (float and i64) are "
@@ -312,17 +312,20 @@ CLAIMS.update({
 # sentences added after the first version of each claim (uniform "spec holds of the model" theorems, extensions)
 EXTRA = {
     "C01": " c01_spec_of_validated_int: for ALL traces accepted by the validator inside the executable domain spec_c01 is true (no bound on the "
-           "number of calls); float flavour: every clause except read-subset (c01_spec_of_validated_float_partial). Counter-vector children are covered too: `C vec` scenarios on a real IntCounterVec (racing first requests, preemption between read-unlock "
+           "number of calls); float flavour: the WHOLE spec on the domain dom01_float_full (finite non-negative increments whose decoded values fit one 53-bit window below 2^2098, so that every partial sum is exact: c01_spec_of_validated_float, Flocq Bplus_correct), every clause except read-subset outside that window (c01_spec_of_validated_float_partial); the evidence counts the traces of each run inside / outside these domains. Counter-vector children are covered too: `C vec` scenarios on a real IntCounterVec (racing first requests, preemption between read-unlock "
            "and write-lock) are validated by C10's vector model and judged by spec_c01_vec (every completed increment visible in a later collection, "
-           "exactly once); the theorems used there are C10's, re-exported as c01_vec_child_*. Local flushes include tiny amounts (1e-17, subnormals).",
+           "exactly once); c01_vec_spec_of_validated: a vector trace accepted by vcheck inside dom_c01_vec (events of the harness threads only, increments distinct powers of two below 2^63) satisfies spec_c01_vec - built on C10's relaxed_spec_of_validated_partial3, so EVERY clause of C01's executable specs (int, float, vector) is now a theorem on validated traces inside the executable domains; C10's other theorems are re-exported as c01_vec_child_*. Local flushes include tiny amounts (1e-17, subnormals).",
     "C11": " c11_spec_of_validated_int: for ALL traces accepted by the validator inside the executable domain the executable spec (linearisation "
-           "search proved complete with its own fuel, read-subset derived from it) is true; float flavour: every clause except the redundant "
-           "read-subset clause (c11_spec_of_validated_float_partial).",
+           "search proved complete with its own fuel, read-subset derived from it) is true; float flavour: the WHOLE spec on dom11_float (finite amounts of both signs "
+           "inside one 53-bit window, no overflow: c11_spec_of_validated_float), every clause except the read-subset clause elsewhere "
+           "(c11_spec_of_validated_float_partial); the evidence counts the traces of each run inside / outside these domains.",
     "C10": " c10_relaxed_spec_of_validated_partial: on every validated trace in the executable domain the relaxed spec's clauses 'every call "
            "returned', result kinds, no duplicate keys, removed/reset keys not collected, the remove clause (Ok only for a requested key, Err never "
            "for a certainly-present one) and no-lost-update (a completed update is decoded from a later collection of its key) hold; in full "
-           "for scenarios without decodable increments (c10_relaxed_spec_of_validated_undecodable). Not proved, evaluated on every run: the "
-           "'shown' / 'recreated-is-fresh' conjuncts and completeness of the linearisation search.",
+           "for scenarios without decodable increments (c10_relaxed_spec_of_validated_undecodable). c10_relaxed_spec_of_validated_partial3 adds the "
+           "'shown' and 'recreated-is-fresh' conjuncts (from c10_child_id_one_key / c10_child_id_never_returns: a child id belongs to one key for "
+           "ever), i.e. EVERYTHING in the relaxed spec except the linearisation search (c10_relaxed_spec_of_validated_is_search); that the search "
+           "never answers NotFound on a validated trace is not proved and is evaluated on every run.",
     "C02": " c02_spec_of_validated: for ALL traces, accepted by the validator and inside the executable domain (values +-2^k with distinct exponents "
            "< 53, sorted bounds) implies the executable spec written from the property text is true - the oracle cannot raise an alarm on a trace the "
            "model accepts (subset sums of such values decode uniquely: c02_decode_unique).",
